@@ -1,6 +1,9 @@
 // Correspondence harness for the deck text models (C01, C19, lexer part of C20).
 //
 //   deck corr <seed> <tier> <outdir>      ops.txt / impl.txt / stats.json
+//   deck corrlex <seed> <tier> <outdir>   the lexical part only (function level on arbitrary
+//                                         bytes + keyword assembly), for the C20 check, which
+//                                         runs it against the UBSan / bounds-checked build
 //   deck canon <model.txt> <out.txt>      rewrites `t<hex>` double tokens of the model's
 //                                         answers into bit patterns with the real
 //                                         readValueToken<double>
@@ -21,6 +24,7 @@
 #include <opm/input/eclipse/Parser/ParserRecord.hpp>
 #include <opm/input/eclipse/Parser/ParserItem.hpp>
 #include <opm/input/eclipse/Parser/ParseContext.hpp>
+#include <opm/input/eclipse/Parser/InputErrorAction.hpp>
 #include <opm/input/eclipse/Parser/ErrorGuard.hpp>
 #include <opm/input/eclipse/Deck/Deck.hpp>
 #include <opm/input/eclipse/Deck/DeckKeyword.hpp>
@@ -64,10 +68,21 @@ static std::string unhex(const std::string& h) {
 
 // ---------------------------------------------------------------- generators
 
+// set by `corrlex` (the C20 stage): every third line is made of uniformly random bytes
+static bool g_wild = false;
+
 static std::string randLine(vh::Rng& r, int maxLen, bool newlines) {
     static const std::string common = "ABCabc019 \t ,'\"--//**.+-eEdD\r_";
     int n = r.coin(1, 12) ? 0 : r.range(1, maxLen);
     std::string s;
+    if (g_wild && r.coin(1, 3)) {
+        for (int i = 0; i < n; ++i) {
+            char c = static_cast<char>(r.range(0, 255));
+            if (c == '\n' && !newlines) c = '/';
+            s.push_back(c);
+        }
+        return s;
+    }
     for (int i = 0; i < n; ++i) {
         int k = r.range(0, 99);
         if (k < 70) s.push_back(common[r.below(common.size())]);
@@ -289,12 +304,15 @@ static const char* KEYWORDS[] = {
     "WSEGVALV", "COMPSEGS", "WELSEGS", "VFPPROD", "TUNING", "ENDSCALE", "GRIDOPTS", "RPTRST", "ACTIONX", "WLIST",
     "UDQDIMS", "NETBALAN", "BRANPROP", "NODEPROP", "WTEST", "GLIFTOPT", "WLIFTOPT", "AQUCT", "AQUANCON", "INCLUDE"};
 
-static int corr(uint64_t seed, const std::string& tier, const std::string& outdir) {
+// lexOnly (mode `corrlex`, used by the C20 check): function level on arbitrary bytes and the
+// keyword assembly level only, twice as many lines, wild byte distribution.
+static int corr(uint64_t seed, const std::string& tier, const std::string& outdir, bool lexOnly) {
     vh::Rng r(seed);
     vh::Sink sink(outdir);
     const bool thorough = tier == "thorough";
-    const int nLines = thorough ? 300000 : 30000;
-    const int nRecords = thorough ? 200000 : 20000;
+    g_wild = lexOnly;
+    const int nLines = (thorough ? 300000 : 30000) * (lexOnly ? 2 : 1);
+    const int nRecords = lexOnly ? 0 : (thorough ? 200000 : 20000);
 
     Opm::Parser parser;
     const auto codeKws = parser.codeKeywords();
@@ -384,6 +402,9 @@ static int corr(uint64_t seed, const std::string& tier, const std::string& outdi
                 sink.count("fn.split.ok");
             } catch (const std::exception&) { ans = "err"; sink.count("fn.split.err"); }
             sink.emit("deck.split " + hex(rec) + " " + hex(std::string(1, next)), ans);
+            // the same answer is expected from the pointer-level mirror of the tokeniser
+            // (Model/LexPtr.lean: offsets, checked iterator arithmetic; `ub` never expected)
+            sink.emit("deck.splitp " + hex(rec) + " " + hex(std::string(1, next)), ans);
             break; }
         case 14: {
             std::string t;
@@ -551,7 +572,7 @@ static int corr(uint64_t seed, const std::string& tier, const std::string& outdi
         sink.count(std::string("kw.class.") + k.st + (k.raw ? "raw" : "") + (k.dbl ? "dbl" : "") + (k.alt ? "alt" : ""));
     }
     const std::string sentinel = "OIL";
-    const int nKw = thorough ? 60000 : 8000;
+    const int nKw = lexOnly ? (thorough ? 30000 : 4000) : (thorough ? 60000 : 8000);
     struct PoolEntry { size_t kw; std::string text; };
     std::vector<PoolEntry> pool;
     for (int n = 0; n < nKw && !kws.empty(); ++n) {
@@ -655,7 +676,7 @@ static int corr(uint64_t seed, const std::string& tier, const std::string& outdi
         // (v) deck level writer: operator<<(ostream, Deck) against the model's mirror of the
         // DeckOutput state machine (default_count / row_count survive from record to record and
         // into a TITLE keyword).
-        if (ans != "err") {
+        if (ans != "err" && !lexOnly) {
             std::string text2 = prefix + k.name + "\n" + text;
             bool withTitle = r.coin(1, 2);
             if (withTitle) text2 += "TITLE\n  " + randWord(r) + (r.coin() ? " " + randWord(r) + " 3" : "") + "\n";
@@ -690,7 +711,7 @@ static int corr(uint64_t seed, const std::string& tier, const std::string& outdi
 
     // (vi) deck level: several keywords, END, and INCLUDE splitting into temporary files, real
     // Parser::parseString against the model's keyword loop (`Deck.parseLoop`).
-    {
+    if (!lexOnly) {
         auto sizeSpec = [&](const KwS& k) -> std::string {
             if (!k.dimsKw.empty()) return "O" + hex(k.dimsKw) + "." + std::to_string(k.dimsItem) + "." + (k.st == 'T' ? "T" : "F");
             switch (k.st) { case 'S': return "S"; case 'U': return "U"; case 'D': return "D"; default: return "F" + std::to_string(k.size); }
@@ -709,6 +730,7 @@ static int corr(uint64_t seed, const std::string& tier, const std::string& outdi
                 sch += schemaString(rs);
             }
             if (sch.empty()) sch = "none";
+            if (kw.getSizeType() == Opm::SLASH_TERMINATED && !kw.hasFixedSize()) return kwDef(name, "S", false, "-", false, false, sch);
             if (!kw.hasFixedSize()) return "";
             return kwDef(name, "F" + std::to_string(kw.getFixedSize()), false, kw.min_size().has_value() ? std::to_string(*kw.min_size()) : "-", false, false, sch);
         };
@@ -725,11 +747,69 @@ static int corr(uint64_t seed, const std::string& tier, const std::string& outdi
                 parts.push_back(pe.text);
                 used.push_back(pe.kw);
             }
+            // second round: TITLE (the next line, even an empty one, is the record; a slash stays),
+            // SKIP / SKIP100 ... ENDSKIP blocks between keywords, SKIP300 (an ordinary keyword
+            // under the default ParseContext), PATHS + `$ALIAS` in INCLUDE paths
+            bool usePaths = r.coin(1, 5);
+            // SKIP / ENDSKIP lines inside the records of a keyword are outside the model (the skipped text
+            // becomes part of the record view): a deck with such lines gets no truncated INCLUDE file,
+            // which could leave a keyword open in front of them
+            bool hasSkipLine = false;
+            {
+                int nSpecial = r.range(0, 2);
+                for (int q = 0; q < nSpecial; ++q) {
+                    std::string sp;
+                    switch (r.range(0, 4)) {
+                    case 0: case 1: {
+                        sp = r.coin(1, 4) ? "title -- c\n" : "TITLE\n";
+                        switch (r.range(0, 5)) {
+                        case 0: sp += "\n"; break;                                   // empty line: default title
+                        case 1: sp += "  -- only a comment\n"; break;
+                        case 2: sp += " " + randWord(r) + " " + randWord(r) + " / text after\n"; break;
+                        case 3: sp += "\n\n OIL\n"; break;                          // the empty line is the title, OIL a keyword line
+                        case 4: sp += " 'A quoted' " + randWord(r) + " 3 1.5\n"; break;
+                        default: sp += "  " + randWord(r) + (r.coin() ? " " + randWord(r) + " 3" : "") + "\n";
+                        }
+                        sink.count("deck.special.title");
+                        break; }
+                    case 2: {
+                        static const char* sk[] = {"SKIP", "SKIP100", "skip", "SKIP  -- c"};
+                        sp = std::string(sk[r.below(4)]) + "\n";
+                        int nj = r.range(0, 3);
+                        for (int j = 0; j < nj; ++j) {
+                            switch (r.range(0, 3)) {
+                            case 0: sp += " junk 'unbalanced / \n"; break;
+                            case 1: sp += "OIL\n"; break;
+                            case 2: sp += "SKIP\n"; break;
+                            default: sp += "\n";
+                            }
+                        }
+                        if (!r.coin(1, 12)) sp += r.coin() ? "ENDSKIP\n" : "endskip  text -- c\n";
+                        if (r.coin(1, 5)) sp += "ENDSKIP\n";                       // stray ENDSKIP: ignored
+                        sink.count("deck.special.skip");
+                        hasSkipLine = true;
+                        break; }
+                    case 3: sp = "SKIP300\n"; sink.count("deck.special.skip300"); break;
+                    default: sp = "ENDSKIP\n"; hasSkipLine = true; sink.count("deck.special.endskip");
+                    }
+                    size_t at = r.below(parts.size() + 1);
+                    parts.insert(parts.begin() + at, sp);
+                    used.insert(used.begin() + at, static_cast<size_t>(-1));
+                }
+            }
             bool withEnd = r.coin(1, 6);
             size_t endAt = withEnd ? r.below(parts.size() + 1) : parts.size() + 1;
             // INCLUDE splitting: a run of whole keywords goes to a file
             std::vector<std::pair<std::string, std::string>> files;
             std::string main;
+            if (usePaths) {
+                main += "PATHS\n 'DIR' '" + tmpdir + "' /\n";
+                if (r.coin(1, 3)) main += " 'DIR' '/nowhere' /\n";                  // emplace keeps the first value
+                if (r.coin(1, 3)) main += " 'OTHER' '/tmp' / text\n";
+                if (r.coin(1, 10)) main += " 'ONEITEM' /\n";                       // item 1 missing: .at() throws
+                main += "/\n";
+                sink.count("deck.special.paths");
+            }
             size_t i = 0; int fileNo = 0;
             while (i < parts.size()) {
                 if (i == endAt) main += "END\n";
@@ -745,16 +825,32 @@ static int corr(uint64_t seed, const std::string& tier, const std::string& outdi
                         content += std::string(r.coin() ? "INCLUDE\n" : "include -- nested\n") + " '" + inner + "' /\n";
                         ++len;
                     }
-                    std::string path = tmpdir + "/d" + std::to_string(n) + "_" + std::to_string(fileNo++) + ".inc";
+                    std::string fname = "d" + std::to_string(n) + "_" + std::to_string(fileNo++) + ".inc";
+                    std::string path = tmpdir + "/" + fname;
+                    if (r.coin(1, 8)) {
+                        // ENDINC: the rest of the file (garbage, whole keywords) is not read
+                        content += std::string(r.coin() ? "ENDINC\n" : "endinc -- c\n") + (r.coin() ? " junk 'unbalanced / \n" : "") + (r.coin() ? "WATER\nGAS\n" : "");
+                        sink.count("deck.special.endinc");
+                    }
+                    if (r.coin(1, 8) && content.size() > 4 && !hasSkipLine) {
+                        // the file ends anywhere: inside a record (the parser throws since d37f2f297),
+                        // between the records of a keyword (it goes on in the including file), inside a word
+                        content.resize(r.range(1, static_cast<int>(content.size()) - 1));
+                        sink.count("deck.special.truncated_include");
+                    }
                     if (r.coin(1, 4) && !content.empty() && content.back() == '\n') content.pop_back();   // file without final newline
                     vh::spit(path, content);
                     files.push_back({path, content});
-                    main += std::string("INCLUDE\n") + (r.coin() ? " '" : "'") + path + (r.coin() ? "' /\n" : "'/ text\n");
+                    std::string shown = path;
+                    if (usePaths && r.coin(2, 3)) { shown = (r.coin() ? "$DIR/" : " $DIR/") + fname; sink.count("deck.special.alias_path"); }
+                    else if (r.coin(1, 15)) { shown = "$NOALIAS/" + fname; sink.count("deck.special.unknown_alias"); }
+                    main += std::string("INCLUDE\n") + (r.coin() ? " '" : "'") + shown + (r.coin() ? "' /\n" : "'/ text\n");
                     i += len;
                 } else { main += parts[i]; ++i; }
             }
             if (endAt == parts.size()) main += "END\n";
             if (withEnd && r.coin()) main += "GARBAGE after END 'x /\n";
+            if (!withEnd && r.coin(1, 12)) { main += "ENDINC\nGARBAGE after ENDINC 'x /\n"; sink.count("deck.special.endinc_main"); }
 
             // table of the keywords involved
             std::vector<std::string> defs;
@@ -765,11 +861,12 @@ static int corr(uint64_t seed, const std::string& tier, const std::string& outdi
             };
             bool okDefs = true;
             for (size_t u : used) {
+                if (u == static_cast<size_t>(-1)) continue;
                 const KwS& k = kws[u];
                 addDef(k.name, kwDef(k.name, sizeSpec(k), k.raw, k.mn, k.alt, k.dbl, k.schemas));
                 if (!k.dimsKw.empty()) { std::string d = helperDef(k.dimsKw); if (d.empty()) okDefs = false; addDef(k.dimsKw, d); }
             }
-            for (const char* h : {"OIL", "END", "INCLUDE"}) { std::string d = helperDef(h); if (d.empty()) okDefs = false; addDef(h, d); }
+            for (const char* h : {"OIL", "END", "INCLUDE", "TITLE", "ENDINC", "PATHS", "SKIP300", "WATER", "GAS"}) { std::string d = helperDef(h); if (d.empty()) okDefs = false; addDef(h, d); }
             if (!okDefs) { sink.count("deck.skipped"); continue; }
             std::string defArg;
             for (size_t j = 0; j < defs.size(); ++j) { if (j) defArg += "~"; defArg += defs[j]; }
@@ -803,8 +900,11 @@ static int corr(uint64_t seed, const std::string& tier, const std::string& outdi
                 if (!s2.empty()) fileArg = s2;
             }
             std::string ans;
+            bool foreign = false;
             {
                 Opm::ParseContext ctx; Opm::ErrorGuard errors;
+                // a missing INCLUDE file (unknown alias, path taken from a following line) is EXIT1 by default
+                ctx.update(Opm::ParseContext::PARSE_MISSING_INCLUDE, Opm::InputErrorAction::THROW_EXCEPTION);
                 try {
                     auto deck = parser.parseString(main, ctx, errors);
                     errors.clear();
@@ -812,6 +912,9 @@ static int corr(uint64_t seed, const std::string& tier, const std::string& outdi
                     if (deck.size() == 0) ans += "-";
                     for (size_t j = 0; j < deck.size(); ++j) {
                         const auto& dk = deck[j];
+                        // a truncated file can end in a word that happens to be another keyword of the
+                        // real parser (WCONINJE -> WCONINJ): the model's table does not know it - not a test
+                        if (std::find(names.begin(), names.end(), dk.name()) == names.end()) foreign = true;
                         if (j) ans += "~";
                         ans += hex(dk.name()) + "=";
                         if (dk.size() == 0) ans += "none";
@@ -820,6 +923,7 @@ static int corr(uint64_t seed, const std::string& tier, const std::string& outdi
                 } catch (const std::exception&) { errors.clear(); ans = "err"; }
                 catch (...) { errors.clear(); ans = "err"; }
             }
+            if (foreign) { sink.count("deck.skipped_foreign_keyword"); for (const auto& f : files) std::remove(f.first.c_str()); continue; }
             sink.count(ans == "err" ? "deck.parse.err" : "deck.parse.ok");
             sink.count("deck.include_files", static_cast<long>(files.size()));
             if (withEnd) sink.count("deck.with_END");
@@ -829,6 +933,97 @@ static int corr(uint64_t seed, const std::string& tier, const std::string& outdi
     }
 
     sink.writeStats(outdir + "/stats.json");
+    return 0;
+}
+
+// ---------------------------------------------------------------- C20 probes with a time bound
+//
+//   deck probe20 <seed> <tier> <outdir>     prop.txt / prop_stats.json
+//
+// Two ways in which deck text makes the parser run forever (design.d/C20.lexer.md, second round);
+// each call runs in a child process under alarm(): a child killed by SIGALRM is the failure.
+#include <csignal>
+#include <functional>
+#include <sys/resource.h>
+#include <sys/wait.h>
+#include <unistd.h>
+
+static int runChild(const std::function<void()>& f, unsigned secs) {
+    pid_t pid = fork();
+    if (pid < 0) return -1;
+    if (pid == 0) {
+        struct rlimit rl; rl.rlim_cur = rl.rlim_max = 2048UL * 1024 * 1024; setrlimit(RLIMIT_AS, &rl);
+        alarm(secs);
+        try { f(); } catch (const std::exception&) { _exit(0); } catch (...) { _exit(3); }
+        _exit(0);
+    }
+    int st = 0;
+    waitpid(pid, &st, 0);
+    if (WIFSIGNALED(st)) return 1000 + WTERMSIG(st);
+    return WEXITSTATUS(st);
+}
+
+static int probe20(uint64_t seed, const std::string& tier, const std::string& outdir) {
+    (void) seed; (void) tier;
+    vh::PropLog log(outdir + "/prop.txt");
+    const std::string tmp = outdir + "/tmp";
+    std::string mk = "mkdir -p '" + tmp + "'";
+    if (std::system(mk.c_str()) != 0) return 2;
+    std::vector<std::string> seenKeys;
+    auto verdict = [&](int rc, const std::string& key, const std::string& what) {
+        if (rc == 1000 + SIGALRM) {
+            // one FAIL line per cause; further instances are only counted
+            if (std::find(seenKeys.begin(), seenKeys.end(), key) == seenKeys.end()) {
+                seenKeys.push_back(key);
+                log.fail(key, what + ": no result within the time bound (killed by the alarm)");
+            } else ++log.failed;
+        }
+        else if (rc >= 1000) log.fail("C20.probe_signal", what + ": killed by signal " + std::to_string(rc - 1000));
+        else if (rc == 3) log.fail("C20.probe_foreign_exception", what + ": exception not derived from std::exception");
+        else log.ok();
+    };
+    // (a) Parser::parseFile(file, ctx, errors, sections): skipping to the next section keyword
+    const std::vector<std::pair<std::string, std::string>> decks = {
+        {"control", "RUNSPEC\nGRID\nPROPS\nSOLUTION\nSCHEDULE\n"},
+        {"text_after_section_keyword", "RUNSPEC\nGRID\nPROPS X\nSOLUTION\nSCHEDULE\n"},
+        {"lower_case_section_keyword", "RUNSPEC\nGRID\nprops\nSOLUTION\nSCHEDULE\n"},
+        {"section_words_inside_title", "RUNSPEC\nTITLE\n GRID PROPS SOLUTION SCHEDULE\nGRID\n"}};
+    const std::vector<std::vector<Opm::Ecl::SectionType>> sels = {{Opm::Ecl::RUNSPEC}, {Opm::Ecl::RUNSPEC, Opm::Ecl::PROPS}};
+    for (const auto& d : decks) {
+        const std::string path = tmp + "/" + d.first + ".DATA";
+        vh::spit(path, d.second);
+        for (size_t k = 0; k < sels.size(); ++k) {
+            int rc = runChild([&]() {
+                Opm::Parser parser; Opm::ParseContext ctx; Opm::ErrorGuard errors;
+                auto deck = parser.parseFile(path, ctx, errors, sels[k]);
+                (void) deck; errors.clear();
+            }, 4);
+            verdict(rc, "C20.section_skip_hang", "parseFile(" + d.first + ", sections #" + std::to_string(k) + ")");
+        }
+    }
+    // (b) INCLUDE cycles
+    {
+        const std::string self = tmp + "/self.inc", a = tmp + "/a.inc", bb = tmp + "/b.inc", okf = tmp + "/ok.inc";
+        vh::spit(self, "INCLUDE\n '" + self + "' /\n");
+        vh::spit(a, "INCLUDE\n '" + bb + "' /\n");
+        vh::spit(bb, "OIL\nINCLUDE\n '" + a + "' /\n");
+        vh::spit(okf, "WATER\n");
+        const std::vector<std::pair<std::string, std::string>> texts = {
+            {"same_file_twice_in_sequence", "RUNSPEC\nINCLUDE\n '" + okf + "' /\nINCLUDE\n '" + okf + "' /\n"},
+            {"file_includes_itself", "RUNSPEC\nINCLUDE\n '" + self + "' /\n"},
+            {"two_files_include_each_other", "RUNSPEC\nINCLUDE\n '" + a + "' /\n"}};
+        for (const auto& t : texts) {
+            int rc = runChild([&]() {
+                Opm::Parser parser; Opm::ParseContext ctx; Opm::ErrorGuard errors;
+                ctx.update(Opm::ParseContext::PARSE_MISSING_INCLUDE, Opm::InputErrorAction::THROW_EXCEPTION);
+                auto deck = parser.parseString(t.second, ctx, errors);
+                (void) deck; errors.clear();
+            }, 4);
+            verdict(rc, "C20.recursive_include_hang", "parseString(" + t.first + ")");
+        }
+    }
+    std::ofstream st(outdir + "/prop_stats.json");
+    st << "{\"checked\": " << (log.checked + log.failed) << ", \"failed\": " << log.failed << "}\n";
     return 0;
 }
 
@@ -862,7 +1057,9 @@ int main(int argc, char** argv) {
     if (argc < 5) { std::cerr << "usage: deck corr <seed> <tier> <outdir> | deck canon <in> <out>\n"; return 2; }
     std::string mode = argv[1];
     uint64_t seed = std::stoull(argv[2]);
-    if (mode == "corr") return corr(seed, argv[3], argv[4]);
+    if (mode == "corr") return corr(seed, argv[3], argv[4], false);
+    if (mode == "corrlex") return corr(seed, argv[3], argv[4], true);
+    if (mode == "probe20") return probe20(seed, argv[3], argv[4]);
     std::cerr << "unknown mode\n";
     return 2;
 }
